@@ -495,6 +495,10 @@ def lfo_rows(script, outs):
 
 def mon_C10(script, outs):
     fails = []
+    fs0 = unhx(script.ops[0].split()[1])
+    if "PANIC" in outs and not isnan(fs0) and script.meta.get("family") != "extreme":
+        i = outs.index("PANIC")
+        return [(i, "reading the waveforms panicked after `%s` (phase counter outside the table?)" % script.ops[i])]
     for i, t, a, (sine, tri, up, down, sq) in lfo_rows(script, outs):
         if not (0 <= a < 16777216):
             fails.append((i, "phase counter %d outside 24 bits" % a))
